@@ -337,6 +337,118 @@ func cminOp(c *Ctx, op string) {
 	c.Emit(op, ans, true)
 }
 
+// halfRegisteredProbe (C08, oracle only): "a handler compresses responses only with an algorithm
+// it supports", "a request compressed with an algorithm the handler lacks is rejected as
+// unimplemented ... without running user code": an algorithm registered with only one of its two
+// constructors is not supported - in neither direction (round 11, C08-mp; F22 is the both-nil case).
+func halfRegisteredProbe(c *Ctx) {
+	for _, proto := range []string{"connect", "grpc", "grpcweb"} {
+		for _, missing := range []string{"compressor", "decompressor"} {
+			for _, how := range []string{"sent", "accepted"} {
+				runs := 0
+				opt := connect.WithCompression("zz", newRLEDecompressor, nil)
+				if missing == "decompressor" {
+					opt = connect.WithCompression("zz", nil, newRLECompressor)
+				}
+				h := connect.NewUnaryHandler("/s/m", func(ctx context.Context, r *connect.Request[[]byte]) (*connect.Response[[]byte], error) {
+					runs++
+					return connect.NewResponse(&[]byte{1, 1, 1, 1, 1, 1}), nil
+				}, connect.WithCodec(rawCodec{"raw"}), opt, connect.WithCompressMinBytes(0))
+				desc := fmt.Sprintf("%s unary handler with \"zz\" registered without a %s; the request names zz as %s", proto, missing, how)
+				c.Count("half-registered-probe")
+				got := safely(func() string {
+					body := rleCompress([]byte{9, 9, 9})
+					fl := byte(0)
+					if how == "sent" {
+						fl = 1
+					} else {
+						body = []byte{9, 9, 9}
+					}
+					if proto != "connect" {
+						body = frame(fl, body)
+					}
+					req := httptest.NewRequest(http.MethodPost, "/s/m", bytes.NewReader(body))
+					req.ProtoMajor, req.ProtoMinor, req.Proto = 2, 0, "HTTP/2.0"
+					req.Header.Set("Content-Type", ctFor(proto, "unary", "raw"))
+					encH, accH := encHeaderFor(proto, "unary")
+					if how == "sent" {
+						req.Header.Set(encH, "zz")
+					} else {
+						req.Header.Set(accH, "zz")
+					}
+					rec := httptest.NewRecorder()
+					h.ServeHTTP(rec, req)
+					code, _ := responseErrorCode(proto, "unary", rec)
+					return fmt.Sprintf("runs=%d code=%d response-encoding=%q", runs, code, rec.Result().Header.Get(encH))
+				})
+				want := "runs=0 code=12 response-encoding=\"\""
+				if how == "accepted" {
+					want = "runs=1 code=0 response-encoding=\"\""
+				}
+				if got != want {
+					c.Fail("neg-half-registered", desc, got, "an algorithm registered without both constructors is not supported: "+want)
+				}
+			}
+		}
+	}
+}
+
+// identityNamedPoolProbe (C08, oracle only): "names it in the protocol's encoding header": the
+// name identity means "not compressed" everywhere the headers are written and read - also when
+// somebody registers a pool under that name: nothing is compressed then, in either direction
+// (round 11, C08-mo).
+func identityNamedPoolProbe(c *Ctx) {
+	for _, proto := range []string{"connect", "grpc", "grpcweb"} {
+		for _, kind := range []string{"unary", "server"} {
+			desc := fmt.Sprintf("%s %s handler with a pool registered under the name identity; the client accepts identity", proto, kind)
+			c.Count("identity-named-pool-probe")
+			got := safely(func() string {
+				payload := bytes.Repeat([]byte{5}, 40)
+				var h *connect.Handler
+				opts := []connect.HandlerOption{connect.WithCodec(rawCodec{"raw"}), connect.WithCompression("identity", newRLEDecompressor, newRLECompressor), connect.WithCompressMinBytes(0)}
+				if kind == "unary" {
+					h = connect.NewUnaryHandler("/s/m", func(ctx context.Context, r *connect.Request[[]byte]) (*connect.Response[[]byte], error) {
+						return connect.NewResponse(&payload), nil
+					}, opts...)
+				} else {
+					h = connect.NewServerStreamHandler("/s/m", func(ctx context.Context, r *connect.Request[[]byte], s *connect.ServerStream[[]byte]) error {
+						return s.Send(&payload)
+					}, opts...)
+				}
+				body := []byte{1}
+				if !(proto == "connect" && kind == "unary") {
+					body = frame(0, body)
+				}
+				req := httptest.NewRequest(http.MethodPost, "/s/m", bytes.NewReader(body))
+				req.ProtoMajor, req.ProtoMinor, req.Proto = 2, 0, "HTTP/2.0"
+				req.Header.Set("Content-Type", ctFor(proto, kind, "raw"))
+				encH, accH := encHeaderFor(proto, kind)
+				req.Header.Set(accH, "identity")
+				rec := httptest.NewRecorder()
+				h.ServeHTTP(rec, req)
+				out := rec.Body.Bytes()
+				respEnc := rec.Result().Header.Get(encH)
+				if proto == "connect" && kind == "unary" {
+					return fmt.Sprintf("encoding=%q body-is-the-message=%v", respEnc, bytes.Equal(out, payload))
+				}
+				if len(out) < 5 {
+					return "no envelope in the response"
+				}
+				n := int(out[1])<<24 | int(out[2])<<16 | int(out[3])<<8 | int(out[4])
+				ok := len(out) >= 5+n && bytes.Equal(out[5:5+n], payload)
+				return fmt.Sprintf("encoding=%q flags=%d body-is-the-message=%v", respEnc, out[0], ok)
+			})
+			want := "encoding=\"\" flags=0 body-is-the-message=true"
+			if proto == "connect" && kind == "unary" {
+				want = "encoding=\"\" body-is-the-message=true"
+			}
+			if got != want && got != strings.Replace(want, "encoding=\"\"", "encoding=\"identity\"", 1) {
+				c.Fail("neg-identity-compressed", desc, got, "identity means not compressed: "+want)
+			}
+		}
+	}
+}
+
 func streamNeg(c *Ctx) {
 	if replayOp != "" {
 		if strings.HasPrefix(replayOp, "neg") {
@@ -417,6 +529,8 @@ func streamNeg(c *Ctx) {
 	poolIsolationProbe(c)
 	parkedDecompressorProbe(c)
 	staleAcceptProbe(c)
+	halfRegisteredProbe(c)
+	identityNamedPoolProbe(c)
 	failingCompressorProbe(c, "neg-failed-compression-undecodable")
 	hugeLimitLosslessProbe(c)
 	forwardedEncodingProbe(c)
